@@ -49,6 +49,7 @@ cfg("MC_C02_thorough", MaxCmd=1, MaxEv=2, MaxLop=3, MaxPost=0, MaxDisc=0, RS="RS
 cfg("MC_C02_other", MaxCmd=1, MaxEv=1, MaxLop=3, MaxPost=0, MaxDisc=0, RS="RS_two", ES="ES_two", N="N1", L="L4")
 cfg("MC_C02_adder", MaxCmd=1, MaxEv=2, MaxLop=2, MaxPost=0, MaxDisc=0, RS="RS_two", ES="ES_small", N="N1", L="LAdd")
 cfg("MC_C02_killer", MaxCmd=1, MaxEv=2, MaxLop=2, MaxPost=0, MaxDisc=0, RS="RS_two", ES="ES_small", N="N1", L="LKill")
+cfg("MC_C02_empty", MaxCmd=1, MaxEv=2, MaxLop=1, MaxPost=0, MaxDisc=0, RS="RS_two", ES="ES_empty", N="N1", L="L2")
 cfg("MC_C02_names", MaxCmd=1, MaxEv=1, MaxLop=3, MaxPost=0, MaxDisc=0, RS="RS_two", ES="ES_two", N="N2", L="L2")
 # C03: loss
 cfg("MC_C03_quick", K="K3", MaxCmd=2, MaxEv=0, MaxLop=1, MaxPost=2, MaxDisc=1, RS="RS_two", ES="ES_small", N="N1", L="L2")
